@@ -15,7 +15,8 @@ import sys, json
 import numpy as np
 from bingo.symbolic_regression.symbolic_regressor import SymbolicRegressor
 cfg = json.loads(sys.argv[1])
-x = np.linspace(-3, 3, 25).reshape(-1, 1)
+# 1200 rows and more make the regressor co-evolve fitness predictors (FitnessPredictorIsland): part of the same seeded run
+x = np.linspace(-3, 3, cfg.get("rows", 25)).reshape(-1, 1)
 # a target the operator sets cannot express exactly: no fit ends at fitness 0, so any difference between the random streams
 # of two fits shows in the best equation found
 y = (np.sin(2.1 * x) * x + 0.37 * x ** 2 - 1.3).flatten()
@@ -104,7 +105,8 @@ def hash_seed_fits(tier, seed):
     rng = random.Random(seed)
     cfgs = [dict(ops=None, ea=None, simp=False), dict(ops=None, ea="GeneralizedCrowdingEA", simp=True),
             dict(ops=["+", "-", "*", "sin", "cos", "exp"], ops_type="frozenset", ea=None, simp=False),
-            dict(ops=["+", "-", "*", "/", "sqrt", "cos"], ops_type="set", ea=None, simp=False)]
+            dict(ops=["+", "-", "*", "/", "sqrt", "cos"], ops_type="set", ea=None, simp=False),
+            dict(ops=None, ea=None, simp=False, rows=1300)]
     if tier == "thorough":
         cfgs += [dict(ops=["+", "-", "*", "/", "sin"], ea=None, simp=True), dict(ops=None, ea=None, simp=True),
                  dict(ops=["+", "-", "*", "/", "sin", "cos"], ops_type="tuple", ea=None, simp=False),
